@@ -323,6 +323,8 @@ pub fn push_call(dc: &mut DynClause, mid: u32, opener: Opener, pat: &Pat) -> Res
         6 => val::push_call(dc, GMock::g.with_types::<u8>(), opener, pat),
         7 => val::push_call(dc, GMock::g.with_types::<u16>(), opener, pat),
         9 => triple::push_call(dc, PMock::mt, opener, pat),
+        38 => val::push_call(dc, R1Mock::get.with_types::<u8>(), opener, pat),
+        39 => val::push_call(dc, R2Mock::get.with_types::<u8>(), opener, pat),
         _ => Err(format!("no such method {mid}")),
     }
 }
@@ -338,6 +340,8 @@ pub fn push_stub(dc: &mut DynClause, mid: u32, pats: &[Pat]) -> Result<(), Strin
         6 => val::push_stub(dc, GMock::g.with_types::<u8>(), pats),
         7 => val::push_stub(dc, GMock::g.with_types::<u16>(), pats),
         9 => triple::push_stub(dc, PMock::mt, pats),
+        38 => val::push_stub(dc, R1Mock::get.with_types::<u8>(), pats),
+        39 => val::push_stub(dc, R2Mock::get.with_types::<u8>(), pats),
         _ => Err(format!("no such method {mid}")),
     }
 }
